@@ -88,6 +88,9 @@ THEOREMS = [
     "Verif.C08.tracked_then_edited_wellformed",
     "Verif.C08.refine_pixels_inside",
     "Verif.C08.refine_positions_inside",
+    "Verif.C08.refine_positions_between_pixel_centres",
+    "Verif.C08.refine_tracks_wellformed",
+    "Verif.C08.refine_program_wellformed",
     "Verif.C08.merge_close_sublist",
     "Verif.C08.merge_close_removed_spec",
 ]
@@ -1386,6 +1389,48 @@ def run_refine(case):
             out["refused"] = a = errname(e)
         ops.append(f"c08.refine {enc_rat(EPS_MOMENT)} {h} {n} {cols} {enc_group(init)}")
         ans.append(a)
+        if case.get("program"):
+            # a program of editing steps and refinements on the same image: each step through c08.edit / c08.refine (from the
+            # group the real code had before it), the whole program through c08.steps
+            group = g_cls([make_track([q[0] for q in tr], [q[1] for q in tr], kymo, case["line_time"]) for tr in case["tracks"]])
+            prev, done, seq = init, [], []
+            for spec in case["program"]:
+                rec = {"spec": spec}
+                try:
+                    with warnings.catch_warnings():
+                        warnings.simplefilter("ignore")
+                        if spec.startswith("refine:"):
+                            wi = int(spec.split(":")[1])
+                            mspec = f"refine:{int(math.ceil(wi)) // 2}"
+                            rec["h"], rec["w"] = int(math.ceil(wi)) // 2, wi
+                            group = lk.refine_tracks_centroid(group, track_width=wi * ps, bias_correction=False)
+                        else:
+                            mspec = _resolve_spec(spec, group)
+                            if mspec is None:
+                                continue
+                            group = _apply_spec(lk, group, mspec)
+                    rec["tracks"] = dump_group(group)
+                    a = enc_group(rec["tracks"])
+                except (ValueError, RuntimeError, IndexError) as e:
+                    rec["refused"] = a = errname(e)
+                except _Skip:
+                    break
+                rec["mspec"] = mspec
+                if _modelable(prev) and ("tracks" not in rec or _modelable(rec["tracks"])):
+                    if mspec.startswith("refine:"):
+                        ops.append(f"c08.refine {enc_rat(EPS_MOMENT)} {rec['h']} {n} {cols} {enc_group(prev)}")
+                    else:
+                        ops.append(f"c08.edit {enc_rat(case['line_time'])} {mspec} {enc_group(prev)}")
+                    ans.append(a)
+                done.append(mspec)
+                seq.append(rec)
+                if "tracks" in rec:
+                    prev = rec["tracks"]
+            else:
+                if done and _modelable(init) and _modelable(prev):
+                    ops.append(f"c08.steps {enc_rat(EPS_MOMENT)} {enc_rat(case['line_time'])} {n} {cols} {'|'.join(done)} {enc_group(init)}")
+                    ans.append(enc_group(prev))
+            out["program"] = seq
     # the pixel walk itself, from the rounded points of the first track
     f, _ = _find("refine_peak_based_on_moment")
     pts = [(int(round(c)), int(t)) for t, c in case["tracks"][0] if 0 <= int(round(c)) < n]
@@ -1562,7 +1607,21 @@ def agree(case, i, ia, ma):
             return False
         a, m = dec_list(it[0], lambda x: float(dec_rat(x))), dec_list(mt[0], lambda x: float(dec_rat(x)))
         return len(a) == len(m) and all(abs(u - v) <= 1e-9 * max(1.0, abs(u), abs(v)) for u, v in zip(a, m))
-    if op in ("c08.edit", "c08.editprog", "c08.trackof", "c08.refine"):
+    if op == "c08.steps" and ia != ma:
+        # the whole program: every refinement starts from np.round of doubles; if any group the real code had before a
+        # refinement has an interpolated coordinate within the last bits of a half-integer the program says nothing
+        # (each step is compared on its own from the group the real code had before it)
+        try:
+            d = json.loads(computed(case)[0][0][3:])
+            prev = d["init"]
+            for rec in d.get("program", []):
+                if rec.get("mspec", "").startswith("refine:") and refine_hangs_on_rounding("c08.refine e h n cols " + enc_group(prev)):
+                    return True
+                if "tracks" in rec:
+                    prev = rec["tracks"]
+        except Exception:
+            pass
+    if op in ("c08.edit", "c08.editprog", "c08.trackof", "c08.refine", "c08.steps"):
         if ia == ma:
             return True
         it, mt = ia.split(" "), ma.split(" ")
@@ -1871,6 +1930,20 @@ def oracle_refine(case, ia):
         r = counts_ok(t, k, img, [case["width_px"] * ps], d["h"], None, where)
         if r:
             return r
+    for rec in d.get("program", []):
+        if "tracks" not in rec:
+            continue
+        where = f"after {rec['spec']}:"
+        r = well_formed(rec["tracks"], len(img), len(img[0]), ps, where) or units_ok(rec["tracks"], ps, case["line_time"], where)
+        if r:
+            return r
+        for k, t in enumerate(rec["tracks"]):
+            if not t["t"]:
+                return f"well-formed: {where} track {k} is empty"
+            if "h" in rec:
+                r = counts_ok(t, k, img, [rec["w"] * ps], rec["h"], None, where)
+                if r:
+                    return r
     return None
 
 
@@ -2485,8 +2558,24 @@ def gen_refine(rng):
     for tr in tracks:
         for q in tr:
             q[1] = min(max(q[1], -0.5), n - 0.51)
-    return {"op": "refine", "image": img, "line_time": rng.choice(LINE_TIMES), "pixel_size_um": rng.choice([None, None, 0.5, 0.25, 2.0]),
+    case = {"op": "refine", "image": img, "line_time": rng.choice(LINE_TIMES), "pixel_size_um": rng.choice([None, None, 0.5, 0.25, 2.0]),
             "tracks": tracks, "width_px": rng.choice([3, 3, 4, 5, 7, 9])}
+    if rng.chance(0.5):
+        prog, nt = [], len(tracks)
+        for _ in range(rng.randint(1, 5)):
+            m = rng.randint(0, 9)
+            if m <= 3:
+                prog.append(f"refine:{rng.choice([3, 4, 5, 7])}")
+            elif m == 4:
+                prog.append("interp:")
+            elif m <= 6:
+                prog.append(f"split:{rng.randint(0, nt)}:{rng.randint(0, 5)}:1")
+            elif m <= 8:
+                prog.append(f"merge:{rng.randint(0, nt)}:{rng.randint(0, 3)}:{rng.randint(0, nt)}:{rng.randint(0, 3)}")
+            else:
+                prog.append(f"filter:{rng.randint(1, 3)}:0/1")
+        case["program"] = prog
+    return case
 
 
 def gen_editops(rng):
@@ -2834,7 +2923,7 @@ def extra_coverage(results):
                 model_steps[k_] = model_steps.get(k_, 0) + 1
                 if " " in a and " " in m and a.split(" ")[0] != m.split(" ")[0] and not r["disagree"]:
                     lenient_filters += 1
-            elif o.startswith("c08.editprog ") and a != UNSEEN:
+            elif (o.startswith("c08.editprog ") or o.startswith("c08.steps ")) and a != UNSEEN:
                 progs += 1
             elif o.startswith("c08.trackof ") and a != UNSEEN:
                 trackofs += 1
@@ -2842,7 +2931,7 @@ def extra_coverage(results):
         "refinement_without_bias_correction_compared_with_the_model": refine_pts,
         "merge_close_peaks_compared_with_the_model": mc,
         "edit_model_steps_compared_with_the_real_code": dict(sorted(model_steps.items())),
-        "edit_model_whole_programs_compared": progs,
+        "edit_and_refine_model_whole_programs_compared": progs,
         "edit_model_filter_steps_that_hang_on_the_last_bits_compared_leniently": lenient_filters,
         "linker_results_compared_as_line_coordinate_tracks": trackofs,
         "edit_steps_done": dict(sorted(steps.items())),
